@@ -36,13 +36,19 @@ def shunting_yard(expr_nodes: list[ExprNode]) -> list[ExprNode]:
     for expr in expr_nodes:
         if isinstance(expr, Term):
             output_queue.append(expr)
-        elif isinstance(expr, BinOp) or isinstance(expr, UnaryOp):
-            current_precedence = OPERATOR_PRECEDENCE[expr.token.value] if isinstance(expr, BinOp) else 2
+        elif isinstance(expr, UnaryOp):
+            # prefix operators bind tightest and to the right: nothing already stacked can apply before their operand.
+            operator_stack.append(expr)
+        elif isinstance(expr, BinOp):
+            current_precedence = OPERATOR_PRECEDENCE[expr.token.value]
 
             while (
                 len(operator_stack) > 0
-                and OPERATOR_PRECEDENCE[operator_stack[-1].token.value] <= current_precedence
                 and operator_stack[-1].token.value != "("
+                and (
+                    isinstance(operator_stack[-1], UnaryOp)
+                    or OPERATOR_PRECEDENCE[operator_stack[-1].token.value] <= current_precedence
+                )
             ):
                 output_queue.append(operator_stack.pop())
             operator_stack.append(expr)
